@@ -41,6 +41,11 @@ C17_Selection == At("frame") =>
     /\ E.show_flows => (E.flow # 0 /\ E.flow \in SetOf(E.fc))
     /\ ~(E.show_chart /\ E.show_map)
 
+\* the selected settings item is a row the dialog renders; the column list stays a permutation of itself
+C17_Settings == At("frame") /\ E.show_settings => E.item = -1 \/ E.item < E.rows[E.tab + 1]
+ColIds(f) == {f.cols[i].id : i \in 1..Len(f.cols)}
+C17_Columns == (At("frame") /\ prev.e = "frame") => Len(E.cols) = Len(prev.cols) /\ ColIds(E) = ColIds(prev) /\ Cardinality(ColIds(E)) = Len(E.cols)
+
 \* a draw or command that does not complete (the harness watchdog saw no progress and recorded where the
 \* main thread was): F24 is the layout solver of the ratatui dependency (cassowary) cycling on the
 \* over-constrained column widths of the hops table - nondeterministic (it depends on the process's hash
